@@ -135,7 +135,7 @@ PROPS = {
         props_v="Props/C05.v",
         corr_v=["Corr/CheckSpdx.v", "Corr/CheckCdx.v", "Corr/CheckXlate.v"],
         n_quick=60, n_thorough=1500,
-        explanation="Theorems: every CycloneDX BOM value (any nesting, repeated or absent references, absent metadata component, self-containment) parses to a closed graph with unique identifiers, none of them empty, each either a component's reference or the generated identifier of its traversal position; SPDX identifiers and relationship endpoints are transferred verbatim, so the graph is closed whenever the input's references resolve and identifiers are as unique as the input's, and a dangling endpoint is always one the input left dangling; NewNodeIdentifier (model: Model/Ident.v, UUID as a parameter) is non-empty, over [a-zA-Z0-9.-] for every seed list, protobom-prefixed, and independent of the UUID whenever a seed is usable. Oracle on the real decoders: parse twice, two other JSON layouts (whitespace and member order; plus string escapes), auto-detection vs stated format; correspondence: Unserialize seams on generated native documents and mutants, generator vs model on seed lists. Known finding K12 (escaped spellings in strings tools-golang reads raw).",
+        explanation="Theorems: every CycloneDX BOM value (any nesting, repeated or absent references, absent metadata component, self-containment) parses to a closed graph with unique identifiers, none of them empty, each either a component's reference or the generated identifier of its traversal position; the parsed identifiers are exactly the components' references and generated identifiers in traversal order, generated identifiers of different positions differ, and when all are pairwise distinct there is one node per component; SPDX identifiers and relationship endpoints are transferred verbatim, so the graph is closed whenever the input's references resolve and identifiers are as unique as the input's, and a dangling endpoint is always one the input left dangling; NewNodeIdentifier (model: Model/Ident.v, UUID as a parameter) is non-empty, over [a-zA-Z0-9.-] for every seed list, protobom-prefixed, and independent of the UUID whenever a seed is usable. Oracle on the real decoders: parse twice, two other JSON layouts (whitespace and member order; plus string escapes), auto-detection vs stated format; correspondence: Unserialize seams on generated native documents and mutants, generator vs model on seed lists. Known finding K12 (escaped spellings in strings tools-golang reads raw).",
         assumptions=["layout independence lives in the third-party decoders and is decided by the oracle, not by a theorem; the modelled conversion is a function of the decoded value", "generated identifiers: injectivity of the zero-padded decimal rendering is proved (auto_id_inj); that the traversal hands every component its own counter value is part of the model and of the Unserialize seam, the node-count oracle decides it on the implementation"],
     ),
     "C07": dict(
